@@ -26,6 +26,9 @@ TYPES = ["single", "one_month", "three_month", "three_month_weighted"]
 CAND = [30, 45, 55, 65, 75, 90]
 
 
+ABBR = ["jan", "feb", "mar", "apr", "may", "jun", "jul", "aug", "sep", "oct", "nov", "dec"]
+
+
 def expected_fit_name(m):
     return "-".join([MONTHS[(m - 2) % 12], MONTHS[m - 1], MONTHS[m % 12]]) + "-weighted"
 
@@ -176,6 +179,31 @@ def run(ctx):
                     for i in range(0, len(idx), 29):
                         lines.append(f"segrow three_month_weighted {int(ls_p[i])}")
                         metas.append(("segrow", "three_month_weighted", str(idx[i]), cols, vals[i]))
+
+    # ---- (1c) the same instants seen from several zones, one after the other in this process (a portfolio pulled from a UTC store and
+    # converted per site): each site's hours belong to ITS local months, whatever was segmented before
+    idx_u = pd.date_range("2020-12-20", "2021-02-10", freq="h", tz="UTC", inclusive="left")
+    for zone in ["UTC", "America/Los_Angeles", "Asia/Kolkata", "Pacific/Auckland", "UTC"]:
+        idx = idx_u.tz_convert(zone)
+        months = idx.month.to_numpy()
+        for ty in ("three_month_weighted", "one_month"):
+            w = segment_time_series(idx, ty)
+            cols = list(w.columns)
+            vals = w.to_numpy()
+            for i in range(len(idx)):
+                m = int(months[i])
+                if ty == "three_month_weighted":
+                    exp = {expected_fit_name(m): 1.0, expected_fit_name((m - 2) % 12 + 1): 0.5, expected_fit_name(m % 12 + 1): 0.5}
+                else:
+                    exp = None
+                got = {c: float(v) for c, v in zip(cols, vals[i]) if v != 0}
+                res["evaluations"] += 1
+                bad = (got != exp) if exp is not None else (len(got) != 1 or not any(ABBR[m - 1] in c.lower() for c in got))
+                if bad:
+                    res["oracle_failures"].append(dict(clause="fit_weights", zone=zone, segment_type=ty, index="same instants as the other zones (UTC range converted)",
+                                                       stamp=str(idx[i]), got=got, expected=exp if exp is not None else f"full weight in the segment of month {m} only"))
+                    break
+        sigs.add(("same_instants_other_zone", zone))
 
     # invalid segment type
     try:
